@@ -76,6 +76,7 @@ type FnCtx struct {
 	mapAx    map[string]bool
 	factSeen map[string]bool
 	ghosts   map[string]Val // ghost parameters of the function under verification
+	rangeLoop map[int]*mapRange // map iterators of the function under verification, by loop ordinal
 	hookHits map[string]bool // call-site clauses (before call / assume call / let) that matched a call site
 	closureAx  map[string]bool
 	pathCovers []*Obligation
